@@ -1,6 +1,20 @@
 META = {
-    "assumptions": ["allocation failure out of scope (--no-malloc-may-fail)"],
-    "outside": [],
+    "assumptions": [
+        "allocation failure out of scope (--no-malloc-may-fail)",
+        "backing channel and undo-file channel are byte-array models (harness/C12/undo_env.h); I/O errors other than the short read at the device end are not injected",
+        "written_block_map is a set model (the real bitmap back ends are C16's subject); ext2fs_crc32c_le is a chaining stub (C14)",
+        "tdb_data_size is a multiple of the channel block size (keys address the device in channel blocks, so nothing else is representable); geometry scaled: undo block 48 bytes, channel block 16/48 bytes",
+        "device bytes carry position tags instead of symbolic data (the undo manager never inspects data)",
+        "ext2fs_get_mem/ext2fs_free_mem replaced by pointer-assignment equivalents (planned hook H3, done in the harness)",
+    ],
+    "outside": [
+        "misc/e2undo.c:main (validation before the first write, -n, -f, the forced fsck after an unfinished run): monolithic, needs a hook; its key walk is restated as the reference reader of the capture harness",
+        "try_reopen_undo_file()/check_filesystem(): harness reopen.c is written but NOT registered -- E2UNDO_MIN_BLOCK_SIZE forces 1024-byte undo blocks and the query needs > 10 GB; a `#ifndef E2UNDO_MIN_BLOCK_SIZE` hook would make it fit",
+        "chains of tools on one undo file (needs re-open), block size changes between captures (undo_set_blksize: key fsblk is in units of the block size at capture time, the header records only the last one)",
+        "keys shortened by the device end that already exist before the step (and their extension after the device grew); E2UNDO_MAX_EXTENT_BLOCKS limit (512 undo blocks per key)",
+        "crc VALUES of keys (the crc-chain check is a thorough-tier query only) and of course crc32c itself",
+        "tool call sites passing -z; undo_open/undo_close/undo_set_option string parsing",
+    ],
 }
 OPS = {"WRITE": 1, "WRITE_BYTE": 2, "ZEROOUT": 3, "DISCARD": 4}
 TDS = 48
@@ -24,15 +38,17 @@ def cap_cfgs():
     c.append(cap("WRITE", 16, 64, cnt=4, **N))
     c.append(cap("WRITE", 48, 48, cnt=1, **N))
     c.append(cap("WRITE", 16, 20, cnt=-20, **N))
-    c.append(cap("WRITE_BYTE", 16, 60, **N))
+    c.append(cap("WRITE_BYTE", 16, 20, **N))
     c.append(cap("ZEROOUT", 16, 48, **N))
     c.append(cap("DISCARD", 16, 48, **N))
-    c.append(cap("WRITE", 16, 64, cnt=4, offmode=1, **N))
+    c.append(cap("WRITE", 16, 16, cnt=1, offmode=1, **N))
     # the three queries below fail on the unchanged tree (genuine defects, see final report)
     c.append(cap("WRITE", 16, 16, cnt=1, BEYOND_END=None, **N))
     c.append(cap("WRITE_BYTE", 16, 20, offmode=1, **N))
     c.append(cap("WRITE", 16, 16, cnt=1, offmode=2, **N))
     # thorough
+    c.append(cap("WRITE_BYTE", 16, 60, **N, **T))
+    c.append(cap("WRITE", 16, 64, cnt=4, offmode=1, **N, **T))
     c.append(cap("WRITE", 48, 48, cnt=1, offmode=2, **N, **T))
     c.append(cap("WRITE", 48, 96, cnt=2, nblk=6, **N, **T))
     c.append(cap("WRITE", 48, 100, cnt=-100, nblk=6, **N, **T))
@@ -68,10 +84,17 @@ HARNESSES = [
          configs=[{"FLUSH": 0}, {"FLUSH": 1}], backends=["default", "kissat"],
          bound="undo block 48 bytes, all 48 key block bytes, 96 superblock bytes, all header-relevant private fields, offset, "
                "channel block size symbolic"),
-    dict(name="reopen", src="reopen.c",
-         funcs=["try_reopen_undo_file", "check_filesystem", "undo_setup_tdb"],
-         configs=reopen_cfgs(), backends=["default", "kissat"],
-         bound="real undo block size 1024, 0..3 keys of 1..2 undo blocks in one key block, fs block size 1024/4096, "
-               "one flipped bit at a symbolic position per damage class"),
 ]
-MANIFEST = {"text": "x", "note": "x"}
+MANIFEST = {
+    "text": "Bounded-exhaustive inductive step on the undo manager: from every undo state satisfying the stated invariant "
+            "(block map, current key block, cursor, device length symbolic) one write / write_byte / zeroout / discard with "
+            "symbolic position is executed on the real undo_io.c; the resulting undo file is read back by an independent "
+            "reader modelled on e2undo's loader and must restore, for an arbitrary byte, exactly the pre-operation content "
+            "exactly once (first write wins), leave earlier records untouched and leave the cursor where a reader of the file "
+            "ends. write_undo_indexes is compared field by field with the file format for all inputs. Re-open, e2undo's "
+            "own validation and multi-tool chains are outside.",
+    "note": "Trusted: CBMC's C semantics, the two channel models, the set model of the block map, the chaining crc stub, "
+            "the scaled geometry (48-byte undo blocks, 2 keys per key block). Three queries fail on the unchanged tree "
+            "(genuine defects: write beyond the device end refused with EXT2_ET_SHORT_READ; write_byte adds the fs offset "
+            "twice; offsets that are not a multiple of tdb_data_size shift the captured range).",
+}
